@@ -261,6 +261,10 @@ class TMGRSchedulingComponent(rpu.ClientComponent):
                         self.advance(early_tasks, rps.TMGR_STAGING_INPUT_PENDING,
                                      publish=True, push=True)
 
+                        # these tasks are on their way now - don't forward
+                        # them again should the pilot be removed and re-added
+                        del self._early[pid]
+
             # let the scheduler know
             self.add_pilots([pilot['uid'] for pilot in pilots])
 
